@@ -13,6 +13,7 @@ import MosnVerif.Model.DubboMeta
 import MosnVerif.Lemmas.H1Serve
 import MosnVerif.Lemmas.H2ClientSettings
 import MosnVerif.Lemmas.NeedMoreLive
+import MosnVerif.Lemmas.H2Trailers
 /-!
 # C08 — malformed input is contained (property theorems only)
 
@@ -730,5 +731,43 @@ example : frameStep_tars (fun _ => true) [0, 0] = .needMore ∧ frameStep_tars (
 example : frameStep_tars (fun _ => true) [0, 0, 0, 3] = .error ∧ frameStep_tars (fun _ => true) [0xff, 0xff, 0xff, 0xff, 1] = .error ∧
     hopeless "tars" [0, 0, 0, 3] = true ∧ hopeless "tars" [0, 0, 0, 4] = false ∧ hopeless "tars" [0, 0xa0, 0, 1] = true := by decide
 end c08l9needmore
+
+/-! ## [c08l9] trailers: a second HEADERS frame on a request stream never reaches a nil trailer object -/
+section c08l9trailers
+open MosnVerif.Model.H2Trailers MosnVerif.Lemmas.H2Trailers MosnVerif.Gen
+
+/-- the facts read off the regenerated structure (Gen/C08H2Trailers): processHeaders refuses HEADERS for a stream that
+is half-closed(remote) BEFORE mprocessTrailerHeaders; handleFrame allocates the trailer object of every request that
+is not ended by its HEADERS frame; mprocessTrailerHeaders has the order of tests the model is written from -/
+theorem trailers_cfg_safe : Cfg.Safe cfgGen ∧
+    C08H2Trailers.srvTrailerSteps = ["sc:=st.sc", "if st.gotTrailerHeader", "st.gotTrailerHeader=true",
+      "if !f.StreamEnded()", "if len(f.PseudoFields())>0", "if st.trailer!=nil", "st.state=stateHalfClosedRemote"] := by
+  refine ⟨⟨by decide, by decide⟩, by decide⟩
+
+/-- **trailers_never_nil_deref**: for EVERY sequence of HEADERS (request head / trailers, with or without END_STREAM,
+declared `Trailer` or not, pseudo or forbidden fields) and DATA frames a client sends on a stream, the server's
+handleFrame never assigns through a nil `stream.trailer` (no panic on the connection's read goroutine), and a
+registered stream that is still open always has its trailer object. -/
+theorem trailers_never_nil_deref (evs : List Ev) :
+    (run cfgGen {} evs).panicked = false ∧
+    ((run cfgGen {} evs).reg = true → (run cfgGen {} evs).ms = .open → (run cfgGen {} evs).tobj = true) :=
+  run_inv cfgGen trailers_cfg_safe.1 evs {} ⟨rfl, by intro h; cases h⟩
+
+/-- the model's outcome of EVERY `h2trail` case satisfies the predicate -/
+theorem h2trail_spec_holds_on_model (evs : List Ev) :
+    h2trailSpec (if (run cfgGen {} evs).panicked then "panic" else "ret") = true := by
+  rw [(trailers_never_nil_deref evs).1]; decide
+
+/-- witness of the repaired defect: WITHOUT the half-closed(remote) test, HEADERS(END_STREAM) followed by trailers
+HEADERS(END_STREAM) — a request that already ended has no trailer object — is a nil dereference -/
+theorem trailers_without_state_check_panic :
+    (run { cfgGen with stateCheck := false } {} [.headers .head false true, .headers .trail false true]).panicked = true := by
+  decide
+
+-- non-vacuity: legitimate trailers are delivered; trailers after the end of the request are refused with a reset
+example : (run cfgGen {} [.headers .head true false, .data false, .headers .trail false true]).del = ["hbt"] := by decide
+example : let s := run cfgGen {} [.headers .head false true, .headers .trail false true]
+    s.del = ["h"] ∧ s.resets = 1 ∧ s.rst = 1 ∧ s.closed = false ∧ s.panicked = false := by decide
+end c08l9trailers
 
 end MosnVerif.Props.C08
